@@ -81,16 +81,16 @@ static std::vector<double> const& nodes1d(TasmanianSparseGrid const &g){
     try{
         switch(key.fam){
             case 0: {
-                int depth = 0; // grow until at least 33 points or the rule's table ends
+                int depth = 0; // grow until at least 260 points or the rule's table ends
                 for(depth = 1; depth < 40; depth++){
                     try{ TasmanianSparseGrid q; q.makeGlobalGrid(1, 0, depth, type_level, key.rule, std::vector<int>(), g.getAlpha(), g.getBeta());
-                         t = q; if (q.getNumPoints() >= 33) break; }catch(std::exception &){ break; }
+                         t = q; if (q.getNumPoints() >= 260) break; }catch(std::exception &){ break; }
                 }
                 break; }
             case 1: t.makeSequenceGrid(1, 0, 40, type_level, key.rule); break;
             case 2: t.makeLocalPolynomialGrid(1, 0, (key.order == 0) ? 5 : 8, key.order, key.rule); break;
             case 3: t.makeWaveletGrid(1, 0, 6, key.order); break;
-            case 4: t.makeFourierGrid(1, 0, 4, type_level); break;
+            case 4: t.makeFourierGrid(1, 0, 6, type_level); break;
             default: break;
         }
         if (!t.empty() && !OneDimensionalMeta::isNonNested(key.rule)){
@@ -529,6 +529,40 @@ static std::string obs_exact(TasmanianSparseGrid const &g, unsigned seed){
                 }
             }
             add("q_modes", jbool(qok)); add("i_modes", jbool(iok)); add("i_wsum1", jbool(w1));
+            // evaluate() after loading the nodal values of a few modes (real and imaginary parts), highest ones included
+            if (g.getNumOutputs() > 0){
+                TasmanianSparseGrid t; t.copyGrid(g);
+                if (t.isUsingConstruction()) t.finishConstruction();
+                if (t.getNumNeeded() > 0 && t.getNumLoaded() > 0) t.clearRefinement();
+                int outs = t.getNumOutputs(); int tn = t.getNumPoints();
+                const int *tidx = t.verifLoadedIndexes() ? t.verifLoadedIndexes() : t.verifNeededIndexes();
+                auto tp = t.getPoints();
+                bool eok = true;
+                for(size_t pick=0; pick<4 && tn > 0 && tidx != nullptr; pick++){
+                    std::vector<std::vector<int>> fr((size_t) outs, std::vector<int>((size_t) d));
+                    for(int o=0; o<outs; o++){
+                        size_t m = ((size_t) tn - 1 - ((pick * (size_t) outs + (size_t) o) * 7) % (size_t) tn);
+                        for(int j=0; j<d; j++){ int i = tidx[m * (size_t) d + (size_t) j]; fr[(size_t) o][(size_t) j] = (i % 2 == 1) ? (i + 1) / 2 : -(i / 2); }
+                    }
+                    bool use_sin = (pick % 2 == 1);
+                    std::vector<double> vals((size_t) tn * outs);
+                    for(int i=0; i<tn; i++) for(int o=0; o<outs; o++){
+                        double ph = 0.0; for(int j=0; j<d; j++) ph += 2.0 * M_PI * fr[(size_t) o][(size_t) j] * to_canonical(g, kind, ta, tb, j, tp[(size_t) i * d + j]);
+                        vals[(size_t) i * outs + o] = use_sin ? std::sin(ph) : std::cos(ph);
+                    }
+                    t.loadNeededValues(vals);
+                    for(int k=0; k<5; k++){
+                        std::vector<double> xi(xp.begin() + (size_t) k * d, xp.begin() + (size_t) (k + 1) * d), y;
+                        t.evaluate(xi, y);
+                        for(int o=0; o<outs; o++){
+                            double ph = 0.0; for(int j=0; j<d; j++) ph += 2.0 * M_PI * fr[(size_t) o][(size_t) j] * to_canonical(g, kind, ta, tb, j, xi[(size_t) j]);
+                            double exact = use_sin ? std::sin(ph) : std::cos(ph);
+                            if (std::fabs(y[(size_t) o] - exact) > 1.0e-8 * (double) (tn + 1)) eok = false;
+                        }
+                    }
+                }
+                add("i_evaluate", jbool(eok));
+            }
         }else{
             // wavelet, local polynomial (order != 0, rules that include the boundary, depth >= 1): affine functions
             bool applies = g.isWavelet() || (g.isLocalPolynomial() && g.getOrder() != 0 && g.getRule() != rule_localp0);
@@ -555,6 +589,28 @@ static std::string obs_exact(TasmanianSparseGrid const &g, unsigned seed){
                     }
                 }
                 add("i_affine", jbool(iok)); add("i_wsum1", jbool(w1));
+                // evaluate() after loading the nodal values of the coordinate functions and of a constant
+                if (g.getNumOutputs() > 0){
+                    TasmanianSparseGrid t; t.copyGrid(g);
+                    if (t.isUsingConstruction()) t.finishConstruction();
+                    if (t.getNumNeeded() > 0 && t.getNumLoaded() > 0) t.clearRefinement();
+                    int outs = t.getNumOutputs(); int tn = t.getNumPoints();
+                    auto tp = t.getPoints();
+                    bool eok = true;
+                    for(int pick=0; pick<=d && tn > 0; pick++){
+                        // output o carries coordinate (pick + o) mod (d + 1); index d stands for the constant 3
+                        std::vector<double> vals((size_t) tn * outs);
+                        for(int i=0; i<tn; i++) for(int o=0; o<outs; o++){ int c = (pick + o) % (d + 1); vals[(size_t) i * outs + o] = (c == d) ? 3.0 : tp[(size_t) i * d + c]; }
+                        t.loadNeededValues(vals);
+                        for(int k=0; k<7; k++){
+                            std::vector<double> xi(xp.begin() + (size_t) k * d, xp.begin() + (size_t) (k + 1) * d), y;
+                            t.evaluate(xi, y);
+                            for(int o=0; o<outs; o++){ int c = (pick + o) % (d + 1); double exact = (c == d) ? 3.0 : xi[(size_t) c];
+                                if (std::fabs(y[(size_t) o] - exact) > 1.0e-8 * (1.0 + std::fabs(exact)) * (double) (tn + 1)) eok = false; }
+                        }
+                    }
+                    add("i_evaluate", jbool(eok));
+                }
             }
         }
         // weights sum to the measure of the (transformed) domain, integrate() equals weights times values
@@ -1106,6 +1162,7 @@ int main(int argc, char **argv){
                 }
                 auto idx = coordsToIndexes(g, x);
                 int d = g.getNumDimensions();
+                if (std::find(idx.begin(), idx.end(), -1) != idx.end()){ skip_rest = true; continue; }   // beyond the node tables of the driver: the scenario ends before this event
                 last_cand[o] = idx;
                 extra += ",\"cand\":" + jistrips(idx.data(), (int) (idx.size() / (size_t) std::max(d, 1)), d);
             }else if (cmd == "loadc"){
